@@ -470,6 +470,16 @@ fn history_case(w: &mut W, is_req: bool, cap: usize, backend: Backend, steps: &[
         let buf = w.ctx.place_in(i, data, Place::End);
         placed.push(Step { entry: *e, cfg: *cfg, buf, ucap: *ucap });
     }
+    if w.journal.is_some() {
+        let mut r = vec!["hist".to_string(), (is_req as u8).to_string(), cap.to_string(), backend.id().to_string(), steps.len().to_string()];
+        for (e, cfg, ucap, data) in steps {
+            r.push(e.name().into());
+            r.push(cfg.to_string());
+            r.push(ucap.to_string());
+            r.push(hex(data));
+        }
+        w.journal(&r);
+    }
     let h = history::run(&mut w.ctx, is_req, cap, &placed, backend);
     w.st.evaluations += h.len() as u64;
     w.st.count("histories", 1);
